@@ -72,8 +72,9 @@ def run(v, O):
     hist = []
     for text in v.history:
         hist.append(outcome(lambda: es.solve(subst(O, v, text))))
-    got = outcome(lambda: es.solve(subst(O, v, v.probe)))
-    want = outcome(lambda: make_solver(v.cfg, v).solve(subst(O, v, v.probe)))
+    wrap = (lambda t: Expression(t)) if getattr(v, 'as_expression', False) else (lambda t: t)     # solve() accepts a str or an Expression object
+    got = outcome(lambda: es.solve(wrap(subst(O, v, v.probe))))
+    want = outcome(lambda: make_solver(v.cfg, v).solve(wrap(subst(O, v, v.probe))))
     out = [('same kind of outcome as a fresh instance', O.same(got[0], want[0]))]
     if got[0] == want[0] == 'value':
         out.append(('same value as a fresh instance', O.veq(got[1], want[1])))
@@ -144,6 +145,11 @@ def scenarios(tier, seed):
             for probe in probes[:3]:
                 S.append(Scenario(f'{cfg}/ok-then-probe/{ok}/{probe}', SRC, names, pre, consts={'cfg': cfg, 'history': [ok], 'probe': probe}, preamble=PRE,
                                   what=f'[{ok!r}, {probe!r}] on one {cfg} solver', samples=1))
+    # the probe handed over as an Expression object instead of a str
+    for j, bad in enumerate(BAD['default'][:8] + OK['default'][:2]):
+        probe = PROBE['default'][j % 6]
+        S.append(Scenario(f'default/then-expression-object/{j}', SRC, names, pre, consts={'cfg': 'default', 'history': [bad], 'probe': probe, 'as_expression': True}, preamble=PRE + 'from scinumtools.solver.expression import Expression\n',
+                          what=f'[{bad!r}, Expression({probe!r})] on one default solver', samples=1))
     # an accepted call, then a text that differs from it only by blanks (inside an operator symbol or a number the meaning changes, around an operator it does not)
     variants = [('{a}**{b}', '{a}* *{b}'), ('{a}<={b}', '{a}< ={b}'), ('{a}!={b}', '{a}! ={b}'), ('{a}&&{b}', '{a}& &{b}'), ('sqrt({a})', 'sqrt ({a})'), ('{a}{b}', '{a} {b}'),
                 ('{a}+{b}*{c}', '{a} + {b} * {c}'), ('{a}-{b}', '{a}- {b}'), ('logb({a},{b})', 'logb( {a} , {b} )'), ('{a}||{b}', '{a}| |{b}')]
